@@ -4,11 +4,13 @@
 -/
 import UnifexModel.Driver.Entry
 import UnifexModel.Driver.Entries.StopSource
+import UnifexModel.Driver.Entries.SpawnFuture
 
 namespace Unifex.Driver
 
 def table : List ModelEntries :=
   [ Entries.stopsource
+  , Entries.spawnfuture
   ]
 
 def lookup (m c : String) : Option Entry :=
